@@ -1201,6 +1201,11 @@ class SQLModel:
             temp_id_source = [0]
         if using is None:
             using = OrderedSet(project_node.column_names)
+        if (len(project_node.group_by) < 1) and (len(project_node.ops) > 0) and (
+            not any(k in using for k in project_node.ops.keys())
+        ):
+            # every output was pruned: keep one aggregate so the query still aggregates to a single row
+            using = OrderedSet(list(using) + [next(iter(project_node.ops.keys()))])
         subops = {k: op for (k, op) in project_node.ops.items() if k in using}
         subusing = project_node.columns_used_from_sources(using=using)[0]
         terms = {ci: self.expr_to_sql(oi) for (ci, oi) in subops.items()}
@@ -1300,11 +1305,17 @@ class SQLModel:
         )
         # order/limit columns
         if subsql.terms is not None:
-            subsql.terms = {
+            new_terms = {
                 k: subsql.terms[k]
                 for k in select_columns_node.column_selection
                 if k in subusing
             }
+            if (len(new_terms) < 1) and (len(subsql.terms) > 0):
+                # never narrow a step to no terms at all: it would be written as
+                # SELECT * and, for instance, no longer aggregate
+                k0 = next(iter(subsql.terms.keys()))
+                new_terms = {k0: subsql.terms[k0]}
+            subsql.terms = new_terms
         else:
             subsql.terms = []
         return subsql
@@ -1333,11 +1344,16 @@ class SQLModel:
             db_model=self, using=subusing, temp_id_source=temp_id_source
         )
         # /limit columns
-        subsql.terms = {
+        new_terms = {
             k: subsql.terms[k]
             for k in using
             if k not in drop_columns_node.column_deletions
         }
+        if (len(new_terms) < 1) and (len(subsql.terms) > 0):
+            # never narrow a step to no terms at all (see select_columns_to_near_sql)
+            k0 = next(iter(subsql.terms.keys()))
+            new_terms = {k0: subsql.terms[k0]}
+        subsql.terms = new_terms
         return subsql
 
     def order_to_near_sql(
@@ -2043,6 +2059,10 @@ class SQLModel:
             if columns is None:
                 columns = [k for k in terms.keys()]
             terms_strs = [self.enc_term_(k, terms=terms) for k in columns]
+            if (len(terms_strs) < 1) and (len(terms) > 0):
+                # the consumer uses none of our columns: keep our own terms, "*" would
+                # turn an aggregating step into a copy of its source
+                terms_strs = [self.enc_term_(k, terms=terms) for k in terms.keys()]
             if len(terms_strs) < 1:
                 terms_strs = ["*"]
         sql_start = "SELECT"
